@@ -2,7 +2,7 @@ import PyRatesModel.Sweep.Grid
 /-!
 # C17 — a parameter sweep equals running each parameter set on its own
 
-* **Uncoupled copies** (`C17_euler_blocks`, `C17_heun_blocks`, `C17_iter_blocks`): integrating the concatenated state of copies that are
+* **Uncoupled copies** (`C17_euler_blocks`, `C17_heun_blocks`, `C17_iter_blocks`, `C17_iter_heun_blocks`): integrating the concatenated state of copies that are
   not connected to one another gives, block by block, exactly what integrating each copy alone gives - for every number of copies,
   block sizes, step counts, Euler and Heun.
 * **The grid** (`C17_zip_row`, `C17_mesh_mem`, `C17_mesh_length`, `C17_mesh_nodup`): row `i` of a linear grid holds the i-th value of every
@@ -346,6 +346,57 @@ theorem C17_iter_blocks (fs : List Field) (dims : List Nat) (hk : Keeps fs dims)
       | cons y ys => simp; exact ih ys (by simpa using hl)
   | succ k ih =>
     obtain ⟨h1, h2⟩ := C17_euler_blocks fs dims hk dt t0 i ys hy hl
+    simp only [iter]
+    rw [h1, ih (i + 1) _ h2 (by simp [blockwise, hl])]
+    congr 1
+    unfold blockwise
+    clear h1 h2 hy hk ih
+    induction fs generalizing ys with
+    | nil => cases ys <;> simp
+    | cons f fs ih2 =>
+      cases ys with
+      | nil => simp
+      | cons y ys => simp [iter]; exact ih2 ys (by simpa using hl)
+
+theorem sized_blockwise_heun (fs : List Field) (dims : List Nat) (hk : Keeps fs dims) (dt : Rat) (t0 i : Nat) (ys : List Vec)
+    (hy : Sized ys dims) : Sized (blockwise (fun f y => heunStep f dt t0 i y) fs ys) dims := by
+  unfold blockwise
+  induction fs generalizing ys dims with
+  | nil => cases dims <;> cases ys <;> simp [Sized, Keeps] at hy hk ⊢
+  | cons f fs ih =>
+    cases dims with
+    | nil => simp [Keeps] at hk
+    | cons d ds =>
+      cases ys with
+      | nil => simp [Sized] at hy
+      | cons y ys =>
+        refine ⟨?_, ih ds hk.2 ys hy.2⟩
+        have h1 : (f (i + t0) y).length = d := hk.1 _ y hy.1
+        have hp : (vadd y (vscale dt (f (i + t0) y))).length = d := by simp [vadd, vscale, h1, hy.1]
+        have h2 : (f (i + t0) (vadd y (vscale dt (f (i + t0) y)))).length = d := hk.1 _ _ hp
+        have h2' := h2
+        simp only [vadd, vscale] at h2'
+        simp [heunStep, vadd, vscale, h1, h2', hy.1]
+
+/-- `k` Heun steps of the combined network = `k` Heun steps of every copy on its own -/
+theorem C17_iter_heun_blocks (fs : List Field) (dims : List Nat) (hk : Keeps fs dims) (dt : Rat) (t0 : Nat) (k i : Nat) (ys : List Vec)
+    (hy : Sized ys dims) (hl : fs.length = ys.length) :
+    iter (heunStep (flatField fs dims) dt t0) i k (flat ys)
+      = flat (blockwise (fun f y => iter (heunStep f dt t0) i k y) fs ys) := by
+  induction k generalizing i ys with
+  | zero =>
+    simp only [iter, blockwise]
+    congr 1
+    clear hy hk
+    induction fs generalizing ys with
+    | nil => cases ys <;> simp at hl ⊢
+    | cons f fs ih =>
+      cases ys with
+      | nil => simp at hl
+      | cons y ys => simp; exact ih ys (by simpa using hl)
+  | succ k ih =>
+    have h1 := C17_heun_blocks fs dims hk dt t0 i ys hy hl
+    have h2 := sized_blockwise_heun fs dims hk dt t0 i ys hy
     simp only [iter]
     rw [h1, ih (i + 1) _ h2 (by simp [blockwise, hl])]
     congr 1
